@@ -655,7 +655,25 @@ pub fn fuzz_artifact(p: &Property, path: &str, verif_dir: &str) -> i32 {
         return 0;
     }
     let j = js[data[0] as usize % js.len()];
-    let Some(input) = j.decode_bytes(&data[1..]) else { return 0 };
+    let Some(mut input) = j.decode_bytes(&data[1..]) else { return 0 };
+    // minimise with the history shrinker (greedy step removal), not with `fuzz tmin`
+    if j.replay(&input, false).is_err() {
+        loop {
+            let n = input["steps"].as_array().map(|a| a.len()).unwrap_or(0);
+            let mut removed = false;
+            for i in (0..n).rev() {
+                let mut cand = input.clone();
+                cand["steps"].as_array_mut().unwrap().remove(i);
+                if j.replay(&cand, false).is_err() {
+                    input = cand;
+                    removed = true;
+                }
+            }
+            if !removed {
+                break;
+            }
+        }
+    }
     match j.replay(&input, false) {
         Ok(_) => {
             println!("fuzz artifact {path} does not reproduce on the stable build (job {})", j.label());
